@@ -195,6 +195,30 @@ func (s *Speller) litRune(r rune, quote byte) string {
 
 // Lit spells a literal value (valid UTF-8) in one of the three quotings.
 func (s *Speller) Lit(val []byte, ic bool) string {
+	if !utf8.Valid(val) {
+		// a value that is not UTF-8 can only be written with byte escapes
+		s.feat("byte_literal")
+		quote := byte('"')
+		if len(val) == 1 && !s.Boot && s.u(2, "bytequote") == 0 {
+			quote = '\''
+			s.feat("single_quoted")
+		}
+		var b strings.Builder
+		b.WriteByte(quote)
+		for _, c := range val {
+			if s.u(2, "byteform") == 0 {
+				fmt.Fprintf(&b, `\x%02x`, c)
+			} else {
+				fmt.Fprintf(&b, `\%03o`, c)
+			}
+		}
+		b.WriteByte(quote)
+		out := b.String()
+		if ic {
+			out += "i"
+		}
+		return out
+	}
 	rs := []rune(string(val))
 	var out string
 	k := s.u(6, "quoting")
